@@ -51,6 +51,29 @@ pub trait Chooser: Send {
     fn fault_kind(&self) -> io::ErrorKind {
         io::ErrorKind::Other
     }
+    /// how the injected error is built: 0 = kind + custom payload (`Error::new`), 1 = bare kind without payload
+    /// (`ErrorKind::into`), 2 = raw OS error EIO (what a file or socket returns; no payload either)
+    fn fault_style(&self) -> u8 {
+        0
+    }
+}
+
+/// fail-stop from call `k` on, with a chosen error kind and representation
+pub struct FailFromStyled(pub usize, pub io::ErrorKind, pub u8);
+impl Chooser for FailFromStyled {
+    fn choose(&mut self, idx: usize, _: Kind, _: usize, _: bool) -> Answer {
+        if idx >= self.0 {
+            Answer::Fail
+        } else {
+            Answer::Full
+        }
+    }
+    fn fault_kind(&self) -> io::ErrorKind {
+        self.1
+    }
+    fn fault_style(&self) -> u8 {
+        self.2
+    }
 }
 
 /// from call `k` on the source delivers nothing more (reads return Ok(0))
@@ -205,14 +228,19 @@ pub struct Core {
     pub failed_once: bool,
     /// kind of the injected I/O errors (a stream may fail with any kind)
     pub fault_kind: io::ErrorKind,
+    pub fault_style: u8,
     /// async: state of an operation that is currently answering Pending
     pending: Option<(Kind, u32, usize, u32)>,
     pub record_data: bool,
 }
 
 impl Core {
-    fn fault_of(kind: io::ErrorKind) -> io::Error {
-        io::Error::new(kind, "injected stream fault")
+    fn fault(&self) -> io::Error {
+        match self.fault_style {
+            1 => self.fault_kind.into(),
+            2 => io::Error::from_raw_os_error(5),
+            _ => io::Error::new(self.fault_kind, "injected stream fault"),
+        }
     }
     fn do_read(&mut self, buf: &mut [u8], limit: usize, pendings: u32) -> usize {
         let start = (self.pos as usize).min(self.data.len());
@@ -279,6 +307,7 @@ pub struct Handle(pub Arc<Mutex<Core>>);
 impl Handle {
     pub fn new(data: Vec<u8>, chooser: Box<dyn Chooser>) -> Self {
         let fk = chooser.fault_kind();
+        let fs = chooser.fault_style();
         Handle(Arc::new(Mutex::new(Core {
             data,
             pos: 0,
@@ -289,6 +318,7 @@ impl Handle {
             ops_after_close: 0,
             failed_once: false,
             fault_kind: fk,
+            fault_style: fs,
             pending: None,
             record_data: false,
         })))
@@ -343,11 +373,11 @@ impl Read for SyncStream {
         match c.next_answer(Kind::Read, avail, false) {
             Answer::Fail => {
                 c.log_fail(Kind::Read, buf.len());
-                Err(Core::fault_of(c.fault_kind))
+                Err(c.fault())
             }
             Answer::FailTransient => {
                 c.log_fail_transient(Kind::Read, buf.len());
-                Err(Core::fault_of(c.fault_kind))
+                Err(c.fault())
             }
             Answer::Short(n) => Ok(c.do_read(buf, n, 0)),
             Answer::Eof => Ok(c.do_read(buf, 0, 0)),
@@ -378,11 +408,11 @@ impl Write for SyncStream {
         match c.next_answer(Kind::Write, buf.len(), false) {
             Answer::Fail => {
                 c.log_fail(Kind::Write, buf.len());
-                Err(Core::fault_of(c.fault_kind))
+                Err(c.fault())
             }
             Answer::FailTransient => {
                 c.log_fail_transient(Kind::Write, buf.len());
-                Err(Core::fault_of(c.fault_kind))
+                Err(c.fault())
             }
             Answer::Short(n) => Ok(c.do_write(buf, n, 0)),
             Answer::Eof => Ok(c.do_write(buf, 0, 0)),
@@ -401,11 +431,11 @@ impl Write for SyncStream {
         match c.next_answer(Kind::Flush, 0, false) {
             Answer::Fail => {
                 c.log_fail(Kind::Flush, 0);
-                Err(Core::fault_of(c.fault_kind))
+                Err(c.fault())
             }
             Answer::FailTransient => {
                 c.log_fail_transient(Kind::Flush, 0);
-                Err(Core::fault_of(c.fault_kind))
+                Err(c.fault())
             }
             _ => {
                 let pos = c.pos;
@@ -421,11 +451,11 @@ impl Seek for SyncStream {
         match c.next_answer(Kind::Seek, 0, false) {
             Answer::Fail => {
                 c.log_fail(Kind::Seek, 0);
-                Err(Core::fault_of(c.fault_kind))
+                Err(c.fault())
             }
             Answer::FailTransient => {
                 c.log_fail_transient(Kind::Seek, 0);
-                Err(Core::fault_of(c.fault_kind))
+                Err(c.fault())
             }
             _ => c.do_seek(to, 0),
         }
@@ -453,11 +483,11 @@ fn async_gate(c: &mut Core, kind: Kind, len: usize, cx: &mut Context<'_>) -> Res
     match c.next_answer(kind, len, true) {
         Answer::Fail => {
             c.log_fail(kind, len);
-            Err(Core::fault_of(c.fault_kind))
+            Err(c.fault())
         }
         Answer::FailTransient => {
             c.log_fail_transient(kind, len);
-            Err(Core::fault_of(c.fault_kind))
+            Err(c.fault())
         }
         Answer::Full => Ok(Some((usize::MAX, 0))),
         Answer::Eof => Ok(Some((0, 0))),
